@@ -202,6 +202,13 @@ func (u *unpacker) read(sz uint64, x interface{}) bool {
 }
 
 func (u *unpacker) readStr(n int) (ok bool) {
+	if n < 0 || n > len(u.pack)-u.j {
+		// The length comes from the format ("c n") or from the packed data
+		// ("s"): if it goes beyond the data there is nothing to read, and it
+		// must not be allocated first.
+		u.err = errUnexpectedPackEnd
+		return false
+	}
 	if !u.consumeBudget(uint64(n)) {
 		return false
 	}
